@@ -211,7 +211,7 @@ func (r *Run) Finish(w *os.File) int {
 		byKey[v.Key] = append(byKey[v.Key], v)
 	}
 	sort.Strings(keys)
-	repDir := filepath.Join(Root(), "replays", r.Prop)
+	repDir := filepath.Join(outDir("replays"), r.Prop)
 	exit := 0
 	fresh, knownHits := 0, 0
 	var vioSummary []map[string]any
@@ -307,11 +307,20 @@ func (r *Run) Finish(w *os.File) int {
 		ev["assumptions"] = []string{}
 	}
 	b, _ := json.MarshalIndent(ev, "", " ")
-	_ = os.MkdirAll(filepath.Join(Root(), "evidence"), 0o755)
-	_ = os.WriteFile(filepath.Join(Root(), "evidence", r.Prop+".json"), append(b, '\n'), 0o644)
+	_ = os.MkdirAll(outDir("evidence"), 0o755)
+	_ = os.WriteFile(filepath.Join(outDir("evidence"), r.Prop+".json"), append(b, '\n'), 0o644)
 	fmt.Fprintf(w, "property=%s tier=%s seed=%d verdict=%s evaluations=%d distinct_nontrivial=%d inconclusive_cases=%d known_finding_hits=%d wall_s=%.1f\n",
 		r.Prop, r.Tier, r.Seed, verdict, r.evaluations, len(r.sigs), len(r.inconclusive), knownHits, time.Since(r.start).Seconds())
 	return exit
+}
+
+// outDir: evidence/ and replays/ live under /verif, except when the rig was built against a scratch checkout
+// (VERIF_REPO != /repo): those runs must never overwrite the evidence of /repo itself.
+func outDir(kind string) string {
+	if alt := os.Getenv("VERIF_REPO"); alt != "" && alt != "/repo" {
+		return filepath.Join(Root(), ".scratch", "alt", kind)
+	}
+	return filepath.Join(Root(), kind)
 }
 
 func firstN[T any](s []T, n int) []T {
